@@ -107,6 +107,7 @@ pub fn execute(check: Check, t: &Trace) -> RunOut {
     let h = std::thread::Builder::new()
         .stack_size(32 << 20)
         .spawn(move || {
+            set_quiet(true);
             seams::run_begin(t2.world.knobs.alloc_seed, seams::Policy::from_u8(t2.world.knobs.alloc_policy));
             let ex = Exec::new(&t2.world, check, t2.blocker);
             let o = ex.run(&t2.ops);
